@@ -121,6 +121,21 @@ CHECKS = {
         design_ref="DESIGN.md 4 (C04)",
         note="Trusted as C03; the numerical value of a whitened residual RMS is decided under C08. Equivariance replays sampled (powers of two, 1e-7..1e-9).",
     ),
+    "C07": dict(
+        engine="tracing-ssm",
+        technique="TLC trace validation (TraceProbSolver.ErrnormExpect) of the real error estimators on tracing-SSM states, with the squared norm exported by TLC as an exact rational",
+        text=(
+            "The real error_residual_std / error_state_std with both norm functions run on tracing-SSM states produced by the real "
+            "solvers. TLC accepts an estimate only if the error was read from the std of the observed mean-only, unit-scale "
+            "extrapolation of the previous state (rescaled by its own whitened RMS, resp. the conditional std of the selected "
+            "coefficient times that RMS), with the cached or re-evaluated linearisation exactly as configured and the reference "
+            "taken from the previous and the proposed mean; TLC computes the squared tolerance-weighted norm (dt^n/n!, "
+            "per-unit-step, derivative index, both norms) exactly from the scripted scalars and the harness compares "
+            "error_power^(-2(q+1)) with it. Base-scale invariance is replayed on the three real SSMs."
+        ),
+        design_ref="DESIGN.md 4 (C07)",
+        note="Trusted: TLC, tracing SSM with scripted std/mean/RMS values; their numerical values on real models are C08. Estimates whose exact value leaves 32 bits are dropped and counted.",
+    ),
 }
 
 NOT_APPLICABLE = {
